@@ -521,6 +521,17 @@ fn recover_line(s: &mut Sink, path: &str, amb: bool, ttl: bool, now: u64) -> (St
     (op, line)
 }
 
+/// after a read-write recovery that succeeded: the device as recovery left it must represent a tiling of its
+/// data area by exactly the recovered index (the model recovers the same pre-image, and its post-image and index
+/// are compared with the real ones on the `recover` line).  Format v3 on any image; the tolerant legacy formats
+/// (which step over unrecognisable blocks) only on undamaged files; never with ambiguous legacy tombstones.
+fn rep_op(op: &str, line: &str, clean: bool) -> Option<(String, String)> {
+    if !line.starts_with("ok ") || !line.contains(" amb=0 ") || line.contains(" fresh=1 ") { return None; }
+    if !(line.contains(" v=3 ") || clean) { return None; }
+    let n = line.split(" n=").nth(1)?.split(' ').next()?.to_string();
+    Some((op.replacen("recover ", "reptiled ", 1), format!("ok rt=1 n={}", n)))
+}
+
 fn new_device(path: &str, blocks: u64, version: u32) {
     let _ = std::fs::remove_file(path);
     let f = std::fs::File::create(path).unwrap();
@@ -540,6 +551,8 @@ struct Workload {
     keys: Vec<Vec<u8>>,
     /// what the store held when it was closed: `key:ts:exp:vlen:fnv(value)` per key (None if it never opened)
     fin: Option<Vec<String>>,
+    /// the index at close with extents: `key:ts:exp:vlen:sector` per key (after an acknowledged final flush)
+    idx: Option<Vec<String>>,
 }
 
 /// run a random workload on a real store at `path`; returns after a clean drop
@@ -604,12 +617,13 @@ fn run_workload(rng: &mut Rng, path: &str, blocks: u64, version: u32, ttl: bool,
         // (the device is small: only an acknowledged final flush makes the file say what the store holds)
         let flushed = store.flush().is_ok();
         let fin = contents(&store);
+        let idx: Vec<String> = store.verif_snapshot().iter().map(|r| format!("{}:{}:{}:{}:{}", hex(&r.key), r.timestamp, r.ttl_expiry, r.value_len, r.sector)).collect();
         drop(store);
         feoxdb::verif::clock::unpin();
-        return Workload { keys, fin: if flushed { Some(fin) } else { None } };
+        return Workload { keys, fin: if flushed { Some(fin) } else { None }, idx: if flushed { Some(idx) } else { None } };
     }
     feoxdb::verif::clock::unpin();
-    Workload { keys, fin: None }
+    Workload { keys, fin: None, idx: None }
 }
 
 fn restamp_journal_checksum(_slot: &mut [u8]) {}
@@ -1212,6 +1226,14 @@ fn sec_recover(s: &mut Sink, rng: &mut Rng, workloads: usize, mutations: usize) 
         let wl = run_workload(rng, &path, blocks, version, ttl, now, steps);
         let _ = wl.keys;
         let pristine = std::fs::read(&path).unwrap();
+        // the file as the store left it represents a tiling of its data area by exactly the store's index
+        // (Fmt.repTiledB on the bytes, with the extents the store reported before it was dropped)
+        if let Some(idx) = &wl.idx {
+            let rp = format!("{}/dev{}_repfile.feox", s.dir, w);
+            std::fs::write(&rp, &pristine).unwrap();
+            let lives = if idx.is_empty() { "-".to_string() } else { idx.join(",") };
+            s.emit(&format!("repfile-v{}", version), format!("repfile {} {} {}", rp, version, lives), format!("ok rt=1 n={}", idx.len()));
+        }
         // a file the store wrote and closed in good order reopens, and to what the store held (judged without the
         // model; TTL off and the clock where it was, so that nothing expires in between)
         if let Some(fin) = &wl.fin {
@@ -1247,7 +1269,9 @@ fn sec_recover(s: &mut Sink, rng: &mut Rng, workloads: usize, mutations: usize) 
         let later = now + *rng.pick(&[0u64, 2_000_000_000, 6_000_000_000, 2_000_000_000_000]);
         let ttl_open = ttl && version != 1 && (dupgen || rng.chance(3, 4));
         let (op, line) = recover_line(s, &path, false, ttl_open, later);
+        let rt = rep_op(&op, &line, true);
         s.emit(&format!("recover-clean-v{}", version), op, line);
+        if let Some((o, l)) = rt { s.emit("reptiled-clean", o, l); }
         // 2. damaged variants (C17 + error branches of the model)
         for m in 0..mutations {
             let mut img = pristine.clone();
@@ -1278,7 +1302,9 @@ fn sec_recover(s: &mut Sink, rng: &mut Rng, workloads: usize, mutations: usize) 
                 *s.hist.entry("clock-floor-checked".into()).or_insert(0) += 1;
             }
             let kind = if line.starts_with("ok") { format!("recover-mut-ok-{}", kinds[0]) } else { format!("recover-mut-{}-{}", line.replace(' ', "-"), kinds[0]) };
+            let rt = rep_op(&op, &line, false);
             s.emit(&kind, op, line);
+            if let Some((o, l)) = rt { s.emit("reptiled-mut", o, l); }
             let _ = std::fs::remove_file(&mp);
         }
         // the clean recover above read `path` after the store possibly modified it on open; the
